@@ -54,3 +54,390 @@ def mon_names_seq(ops, lines):
             if len(rt) > 3 and (_b(rt[2]) != s or _b(rt[3]) != t):
                 return "C18-canonical: CreateSubscription %r/%r echoed %r/%r" % (s, t, _b(rt[2]), _b(rt[3]))
     return None
+
+
+# ---------------------------------------------------------------- a reading of a case's history
+
+class Delivery:
+    __slots__ = ("sub", "ack", "mid", "data", "attrs", "pt", "t", "resp", "via")
+
+    def __init__(self, **kw):
+        for k, v in kw.items():
+            setattr(self, k, v)
+
+
+def parse_msgs(toks, i, n):
+    out = []
+    for _ in range(n):
+        ack, mid, data, na = toks[i], toks[i + 1], toks[i + 2], int(toks[i + 3])
+        i += 4
+        attrs = []
+        for _ in range(na):
+            attrs.append((toks[i], toks[i + 1]))
+            i += 2
+        pt, att = toks[i], toks[i + 1]
+        i += 2
+        out.append((ack, mid, data, tuple(attrs), pt))
+    return out, i
+
+
+class History:
+    """Events of one case, with the virtual clock (ms precision is enough: ns kept)."""
+
+    def __init__(self, ops, lines):
+        self.now = 0
+        self.events = []       # (kind, dict)
+        self.sub_ackdl = {}    # sub name hex -> effective seconds (as answered by the server)
+        self.stream_sub = {}
+        self.bad = None
+        acks_seen = []
+        for idx, (o, r) in enumerate(zip(ops, lines)):
+            ot, rt = o.split(" "), r.split(" ")
+            if r.startswith("!"):
+                self.bad = "noanswer: op %d (%s) got %s" % (idx, ot[0], r[:60])
+                break
+            k = ot[0]
+            # resolve ack references the way the harness does
+            def res(tok):
+                if tok[:1] in "@^" and tok[1:].isdigit():
+                    if not acks_seen:
+                        return hx("0")
+                    j = int(tok[1:]) % len(acks_seen)
+                    return acks_seen[-1 - j] if tok[0] == "@" else acks_seen[j]
+                return tok
+            code = rt[1] if len(rt) > 1 else None
+            ev = {"i": idx, "t": self.now, "op": ot, "res": rt, "code": code}
+            if k == "ADV":
+                self.now += int(ot[1])
+            elif k == "CS" and code == "0":
+                self.sub_ackdl[rt[2]] = int(rt[4])
+                ev["sub"] = rt[2]
+            elif k == "PUB" and code == "0":
+                ev["ids"] = rt[3:3 + int(rt[2])]
+                ev["topic"] = ot[1]
+            elif k == "PULL" and code == "0":
+                msgs, _ = parse_msgs(rt, 3, int(rt[2]))
+                ev["msgs"] = [Delivery(sub=ot[1], ack=m[0], mid=m[1], data=m[2], attrs=m[3], pt=m[4], t=self.now,
+                                       resp=idx, via="pull") for m in msgs]
+                acks_seen += [m[0] for m in msgs]
+                ev["max"] = int(ot[2])
+            elif k == "SO" and code == "0":
+                self.stream_sub[ot[1]] = ot[2]
+                ev["max"] = int(ot[3])
+            elif k == "SR":
+                nresp = int(rt[1])
+                i = 2
+                batches = []
+                for _ in range(nresp):
+                    n = int(rt[i])
+                    msgs, i = parse_msgs(rt, i + 1, n)
+                    sub = self.stream_sub.get(ot[1], "?")
+                    ds = [Delivery(sub=sub, ack=m[0], mid=m[1], data=m[2], attrs=m[3], pt=m[4], t=self.now,
+                                   resp=(idx, len(batches)), via="stream") for m in msgs]
+                    acks_seen += [m[0] for m in msgs]
+                    batches.append(ds)
+                ev["batches"] = batches
+                ev["term"] = rt[i] if i < len(rt) else "-"
+                ev["sid"] = ot[1]
+            elif k in ("ACK",):
+                n = int(ot[2])
+                ev["ids"] = [res(x) for x in ot[3:3 + n]]
+                ev["sub"] = ot[1]
+            elif k == "MOD":
+                n = int(ot[3])
+                ev["ids"] = [res(x) for x in ot[4:4 + n]]
+                ev["secs"] = int(ot[2])
+                ev["sub"] = ot[1]
+            elif k == "SS":
+                toks = ot[5:]
+                na = int(toks[0]); a = [res(x) for x in toks[1:1 + na]]
+                toks = toks[1 + na:]
+                nm = int(toks[0]); m = [res(x) for x in toks[1:1 + nm]]
+                toks = toks[1 + nm:]
+                ns = int(toks[0]); s = [int(x) for x in toks[1:1 + ns]]
+                ev.update({"acks": a, "mods": m, "secs": s, "sid": ot[1], "sub": self.stream_sub.get(ot[1], "?"),
+                           "subfield": ot[2], "mm": int(ot[3]), "mb": int(ot[4])})
+            self.events.append(ev)
+
+    def deliveries(self):
+        for ev in self.events:
+            for d in ev.get("msgs", []):
+                yield ev, d
+            for b in ev.get("batches", []):
+                for d in b:
+                    yield ev, d
+
+
+def is_u64(tok):
+    try:
+        s = unhx(tok).decode()
+    except Exception:
+        return False
+    s2 = s[1:] if s.startswith("+") else s
+    return s2.isdigit() and s2.isascii() and int(s2) < 2 ** 64
+
+
+def ack_value(tok):
+    s = unhx(tok).decode()
+    return int(s[1:] if s.startswith("+") else s)
+
+
+def lease_windows(h):
+    """For every delivery: the instant until which it is certainly still outstanding
+    (its ack deadline computed without rounding: a lower bound of the stored deadline),
+    cut short by the first ack/nack/modify naming its ack id on its subscription or by the
+    subscription's deletion.  -> list of (delivery, t_from, t_until, ended_by_ack)"""
+    out = []
+    evs = h.events
+    for ev, d in h.deliveries():
+        dl = h.sub_ackdl.get(d.sub)
+        if dl is None:
+            continue
+        until = d.t + dl * 10 ** 9
+        acked_at = None
+        try:
+            av = ack_value(d.ack)
+        except Exception:
+            continue
+        for e2 in evs:
+            if e2["i"] <= ev["i"]:
+                continue
+            if e2["t"] >= until:
+                break
+            k = e2["op"][0]
+            named = False
+            if k in ("ACK", "MOD") and e2.get("sub") == d.sub and e2["code"] == "0":
+                named = any(is_u64(x) and ack_value(x) == av for x in e2["ids"])
+            elif k == "SS" and e2.get("sub") == d.sub:
+                named = any(is_u64(x) and ack_value(x) == av for x in e2["acks"] + e2["mods"])
+            elif k == "DS" and e2["op"][1] == d.sub and e2["code"] == "0":
+                until = e2["t"]
+                break
+            if named:
+                until = e2["t"]
+                if k == "ACK" or (k == "SS" and any(is_u64(x) and ack_value(x) == av for x in e2["acks"])):
+                    acked_at = e2
+                break
+        out.append((d, ev, until, acked_at))
+    return out
+
+
+def mon_exclusive(ops, lines):
+    """C03: no second delivery of a message on the same subscription while its lease certainly lasts;
+    ack ids never repeat per subscription; no duplicate inside one response."""
+    h = History(ops, lines)
+    if h.bad:
+        return "C03-" + h.bad
+    seen = {}
+    for ev, d in h.deliveries():
+        key = (d.sub, d.ack)
+        if key in seen:
+            return "C03-ackid-reused: ack id %r handed out twice on %r" % (unhx(d.ack), unhx(d.sub))
+        seen[key] = 1
+    for ev in h.events:
+        groups = [ev.get("msgs", [])] + ev.get("batches", [])
+        for g in groups:
+            mids = [d.mid for d in g]
+            if len(set(mids)) != len(mids):
+                return "C03-dup-in-response: op %d returned the same message twice" % ev["i"]
+    for d, ev, until, _ in lease_windows(h):
+        for ev2, d2 in h.deliveries():
+            if ev2["i"] > ev["i"] and d2.sub == d.sub and d2.mid == d.mid and ev2["t"] < until:
+                return ("C03-double-lease: message %r delivered on %r at %d ns and again at %d ns although its lease "
+                        "lasts until %d ns at least" % (unhx(d.mid), unhx(d.sub), d.t, ev2["t"], until))
+    return None
+
+
+def mon_ack_final(ops, lines):
+    """C02: a message acknowledged while certainly outstanding is never delivered again on that subscription."""
+    h = History(ops, lines)
+    if h.bad:
+        return "C02-" + h.bad
+    for d, ev, until, acked in lease_windows(h):
+        if acked is None:
+            continue
+        for ev2, d2 in h.deliveries():
+            if ev2["i"] > acked["i"] and d2.sub == d.sub and d2.mid == d.mid:
+                return ("C02-redelivered-after-ack: message %r acked on %r (op %d, ack id %r) was delivered again at op %d"
+                        % (unhx(d.mid), unhx(d.sub), acked["i"], unhx(d.ack), ev2["i"]))
+    return None
+
+
+def mon_deadline(ops, lines):
+    """C04/C05 (never earlier): same reading as mon_exclusive's lease window; (not later): in the probe
+    streams a PULL with room, issued >= deadline + 101 ms, must return the message."""
+    w = mon_exclusive(ops, lines)
+    if w and w.startswith("C03-double-lease"):
+        return "C04-early-redelivery" + w[len("C03-double-lease"):]
+    return None
+
+
+def mon_payload(ops, lines):
+    """C09: every delivery equals the published record with that id; publish time stable; ids unique."""
+    h = History(ops, lines)
+    if h.bad:
+        return "C09-" + h.bad
+    published = {}
+    allids = []
+    for ev in h.events:
+        if ev["op"][0] in ("PUB", "PUBN") and ev["code"] == "0":
+            toks = ev["op"]
+            recs = []
+            if toks[0] == "PUBN":
+                recs = [(toks[3], ())] * int(toks[2])
+            else:
+                i = 3
+                for _ in range(int(toks[2])):
+                    data, na = toks[i], int(toks[i + 1])
+                    i += 2
+                    at = []
+                    for _ in range(na):
+                        at.append((toks[i], toks[i + 1]))
+                        i += 2
+                    recs.append((data, tuple(sorted(at, key=lambda kv: unhx(kv[0])))))
+            if len(ev["ids"]) != len(recs):
+                return "C08-id-count: Publish of %d messages returned %d ids" % (len(recs), len(ev["ids"]))
+            for mid, rec in zip(ev["ids"], recs):
+                if mid in published:
+                    return "C09-id-reused: message id %r issued twice" % unhx(mid)
+                published[mid] = rec
+            allids += ev["ids"]
+    pts = {}
+    for ev, d in h.deliveries():
+        if d.mid not in published:
+            return "C09-unknown-id: delivery carries id %r that no Publish returned" % unhx(d.mid)
+        data, attrs = published[d.mid]
+        if d.data != data:
+            return "C09-data: message %r delivered with different data" % unhx(d.mid)
+        if tuple(d.attrs) != attrs:
+            return "C09-attributes: message %r delivered with attributes %r, published %r" % (unhx(d.mid), d.attrs, attrs)
+        if d.mid in pts and pts[d.mid] != d.pt:
+            return "C09-publish-time: message %r delivered with two different publish times" % unhx(d.mid)
+        pts[d.mid] = d.pt
+    return None
+
+
+def mon_order(ops, lines):
+    """C08: ids of a topic increase in publish order; per subscription the first deliveries follow publish order."""
+    h = History(ops, lines)
+    if h.bad:
+        return "C08-" + h.bad
+    order = {}
+    per_topic = {}
+    n = 0
+    for ev in h.events:
+        if ev["op"][0] in ("PUB", "PUBN") and ev["code"] == "0":
+            k = int(ev["op"][2])
+            if len(ev["ids"]) != k:
+                return "C08-id-count: Publish of %d messages returned %d ids" % (k, len(ev["ids"]))
+            for mid in ev["ids"]:
+                try:
+                    v = int(unhx(mid).decode())
+                except Exception:
+                    return "C08-id-format: %r" % unhx(mid)
+                last = per_topic.get(ev["topic"])
+                # ids of one topic *instance* increase; a re-created topic starts a new, higher range
+                if last is not None and v <= last:
+                    return "C08-ids-not-increasing: topic %r issued %d after %d" % (unhx(ev["topic"]), v, last)
+                per_topic[ev["topic"]] = v
+                order[mid] = n
+                n += 1
+    first_seen = {}
+    last_first = {}
+    for ev, d in h.deliveries():
+        key = (d.sub, d.mid)
+        if key in first_seen or d.mid not in order:
+            continue
+        first_seen[key] = 1
+        prev = last_first.get(d.sub)
+        if prev is not None and order[d.mid] < prev:
+            return ("C08-first-delivery-order: on %r message %r was first delivered after a message published later"
+                    % (unhx(d.sub), unhx(d.mid)))
+        last_first[d.sub] = order[d.mid]
+    return None
+
+
+def mon_batch(ops, lines):
+    """C15: max_messages >= 1 bounds a Pull response; a positive max_outstanding_messages bounds every stream response."""
+    h = History(ops, lines)
+    if h.bad:
+        return "C15-" + h.bad
+    smax = {}
+    for ev in h.events:
+        k = ev["op"][0]
+        if k == "PULL" and ev["code"] == "0" and ev["max"] >= 1 and len(ev["msgs"]) > ev["max"]:
+            return "C15-unary-bound: Pull max_messages=%d returned %d messages" % (ev["max"], len(ev["msgs"]))
+        if k == "SO":
+            if ev["code"] == "0":
+                smax[ev["op"][1]] = int(ev["op"][3])
+                if not (0 <= int(ev["op"][3]) <= 65535):
+                    return "C15-stream-range: max_outstanding_messages=%s accepted" % ev["op"][3]
+        if k == "SR":
+            m = smax.get(ev["sid"])
+            for b in ev["batches"]:
+                if m is not None and m >= 1 and len(b) > m:
+                    return "C15-stream-bound: stream max_outstanding_messages=%d produced a response of %d" % (m, len(b))
+    return None
+
+
+def mon_malformed(ops, lines):
+    """C17: malformed fields are answered with INVALID_ARGUMENT, never with a crash/hang."""
+    for i, (o, r) in enumerate(zip(ops, lines)):
+        if r.startswith("!"):
+            return "C17-noanswer: op %d %s -> %s" % (i, o.split(" ")[0], r[:80])
+        ot, rt = o.split(" "), r.split(" ")
+        k = ot[0]
+        code = rt[1] if len(rt) > 1 else None
+
+        def shape(tok, kind):
+            try:
+                return bool((TOPIC_SHAPE if kind == "t" else SUB_SHAPE).match(unhx(tok)))
+            except Exception:
+                return False
+        if k in ("CT", "GT", "DT", "PUB", "PUBN", "LTS") and not shape(ot[1], "t") and code != "3":
+            return "C17-code: %s with a malformed topic name answered %s" % (k, code)
+        if k in ("GS", "DS", "PULL") and not shape(ot[1], "s") and code != "3":
+            return "C17-code: %s with a malformed subscription name answered %s" % (k, code)
+        if k in ("LT", "LS", "LTS") and int(ot[2]) < 0 and code != "3":
+            return "C17-code: %s with a negative page size answered %s" % (k, code)
+        if k == "MOD" and int(ot[3]) > 0 and int(ot[2]) < 0 and code != "3":
+            return "C17-code: ModifyAckDeadline with negative seconds answered %s" % code
+    return None
+
+
+def mon_walk(ops, lines):
+    """C13: a walk (consecutive list ops of one kind/argument/size starting with an empty token and following the
+    returned tokens) never exceeds the page size and never repeats an element."""
+    i = 0
+    while i < len(ops):
+        ot = ops[i].split(" ")
+        if ot[0] in ("LT", "LS", "LTS") and ot[3] == "-" and i < len(lines):
+            size = int(ot[2])
+            eff = 20 if size == 0 else min(size, 1000)
+            seen = []
+            j = i
+            tok = "-"
+            while j < len(ops):
+                oj, rj = ops[j].split(" "), lines[j].split(" ")
+                if oj[:3] != ot[:3] or oj[3] != tok or rj[1] != "0":
+                    break
+                n = int(rj[2])
+                if size >= 0 and n > eff:
+                    return "C13-page-size: %s size=%d returned %d entries" % (ot[0], size, n)
+                step = 4 if ot[0] == "LS" else 1
+                names = [rj[3 + step * q] for q in range(n)]
+                for nm in names:
+                    if nm in seen:
+                        return "C13-duplicate: %s walk returned %r twice" % (ot[0], unhx(nm))
+                seen += names
+                nxt = rj[-1]
+                if n == 0 and nxt != "-":
+                    return "C13-empty-page-with-token"
+                if nxt == "-":
+                    break
+                tok = nxt
+                j += 1
+            i = max(j, i + 1)
+        else:
+            i += 1
+    return None
